@@ -14,6 +14,7 @@ open OutViews
 open Plain
 open Pragma
 open SiteCheck
+open SlotFlagCheck
 open State
 open Str
 open String
@@ -424,56 +425,164 @@ let extras c model_out =
                                  true, true, false, false)),
                                  EmptyString))))))))),
   (b2s (jv_eqb (view_C13 real) (view_C13 model)))) :: (((s_ (String ((Ascii
-                                                          (true, true, true,
-                                                          true, false, true,
-                                                          true, false)),
-                                                          (String ((Ascii
-                                                          (true, true, false,
-                                                          false, false,
-                                                          false, true,
-                                                          false)), (String
-                                                          ((Ascii (true,
-                                                          false, false,
-                                                          false, true, true,
-                                                          false, false)),
-                                                          (String ((Ascii
-                                                          (true, true, false,
-                                                          false, true, true,
-                                                          false, false)),
-                                                          (String ((Ascii
                                                           (true, true, false,
                                                           false, true, true,
                                                           true, false)),
                                                           (String ((Ascii
-                                                          (false, false,
-                                                          true, true, false,
+                                                          (true, false,
+                                                          false, true, false,
                                                           true, true,
-                                                          false)), (String
-                                                          ((Ascii (true,
-                                                          true, true, true,
-                                                          false, true, true,
                                                           false)), (String
                                                           ((Ascii (false,
                                                           false, true, false,
                                                           true, true, true,
                                                           false)), (String
                                                           ((Ascii (true,
-                                                          true, false, false,
+                                                          false, true, false,
+                                                          false, true, true,
+                                                          false)), (String
+                                                          ((Ascii (true,
                                                           true, true, true,
-                                                          false)),
-                                                          EmptyString))))))))))))))))))),
-  (b2s (slot_dynamic_ok e.e_unres real))) :: (((s_ (String ((Ascii (true,
-                                                 true, true, true, false,
-                                                 true, true, false)), (String
-                                                 ((Ascii (true, true, false,
-                                                 false, false, false, true,
-                                                 false)), (String ((Ascii
-                                                 (false, false, false, false,
-                                                 true, true, false, false)),
-                                                 (String ((Ascii (true, true,
-                                                 true, false, true, true,
-                                                 false, false)),
-                                                 EmptyString))))))))),
+                                                          true, false, true,
+                                                          false)), (String
+                                                          ((Ascii (false,
+                                                          true, true, false,
+                                                          false, true, true,
+                                                          false)), (String
+                                                          ((Ascii (false,
+                                                          false, true, true,
+                                                          false, true, true,
+                                                          false)), (String
+                                                          ((Ascii (true,
+                                                          false, false,
+                                                          false, false, true,
+                                                          true, false)),
+                                                          (String ((Ascii
+                                                          (true, true, true,
+                                                          false, false, true,
+                                                          true, false)),
+                                                          (String ((Ascii
+                                                          (true, true, false,
+                                                          false, true, true,
+                                                          true, false)),
+                                                          EmptyString))))))))))))))))))))),
+  (match find_site input with
+   | Some el ->
+     (match find_site real with
+      | Some o ->
+        (match flags_site e (S (S (S (S (S (S (S (S (S (S (S (S (S (S (S (S
+                 (S (S (S (S (S (S (S (S (S (S (S (S (S (S (S (S (S (S (S (S
+                 (S (S (S (S O)))))))))))))))))))))))))))))))))))))))) el o with
+         | [] ->
+           (Npos (Coq_xI (Coq_xO (Coq_xO (Coq_xO (Coq_xI Coq_xH)))))) :: []
+         | s :: l ->
+           join ((Npos (Coq_xO (Coq_xO (Coq_xI (Coq_xI (Coq_xO
+             Coq_xH)))))) :: []) (s :: l))
+      | None ->
+        s_ (String ((Ascii (false, true, true, true, false, true, true,
+          false)), (String ((Ascii (true, true, true, true, false, true,
+          true, false)), (String ((Ascii (false, true, true, true, false,
+          true, true, false)), (String ((Ascii (true, false, true, false,
+          false, true, true, false)), EmptyString)))))))))
+   | None ->
+     s_ (String ((Ascii (false, true, true, true, false, true, true, false)),
+       (String ((Ascii (true, true, true, true, false, true, true, false)),
+       (String ((Ascii (false, true, true, true, false, true, true, false)),
+       (String ((Ascii (true, false, true, false, false, true, true, false)),
+       EmptyString)))))))))) :: (((s_ (String ((Ascii (true, true, false,
+                                    false, true, true, true, false)), (String
+                                    ((Ascii (true, false, false, true, false,
+                                    true, true, false)), (String ((Ascii
+                                    (false, false, true, false, true, true,
+                                    true, false)), (String ((Ascii (true,
+                                    false, true, false, false, true, true,
+                                    false)), (String ((Ascii (true, true,
+                                    true, true, true, false, true, false)),
+                                    (String ((Ascii (false, true, true,
+                                    false, false, true, true, false)),
+                                    (String ((Ascii (false, false, true,
+                                    true, false, true, true, false)), (String
+                                    ((Ascii (true, false, false, false,
+                                    false, true, true, false)), (String
+                                    ((Ascii (true, true, true, false, false,
+                                    true, true, false)), (String ((Ascii
+                                    (true, true, false, false, true, true,
+                                    true, false)), (String ((Ascii (true,
+                                    true, true, true, true, false, true,
+                                    false)), (String ((Ascii (true, false,
+                                    true, true, false, true, true, false)),
+                                    (String ((Ascii (true, true, true, true,
+                                    false, true, true, false)), (String
+                                    ((Ascii (false, false, true, false,
+                                    false, true, true, false)), (String
+                                    ((Ascii (true, false, true, false, false,
+                                    true, true, false)), (String ((Ascii
+                                    (false, false, true, true, false, true,
+                                    true, false)),
+                                    EmptyString))))))))))))))))))))))))))))))))),
+  (match find_site input with
+   | Some el ->
+     (match find_site model with
+      | Some o ->
+        (match flags_site e (S (S (S (S (S (S (S (S (S (S (S (S (S (S (S (S
+                 (S (S (S (S (S (S (S (S (S (S (S (S (S (S (S (S (S (S (S (S
+                 (S (S (S (S O)))))))))))))))))))))))))))))))))))))))) el o with
+         | [] ->
+           (Npos (Coq_xI (Coq_xO (Coq_xO (Coq_xO (Coq_xI Coq_xH)))))) :: []
+         | s :: l ->
+           join ((Npos (Coq_xO (Coq_xO (Coq_xI (Coq_xI (Coq_xO
+             Coq_xH)))))) :: []) (s :: l))
+      | None ->
+        s_ (String ((Ascii (false, true, true, true, false, true, true,
+          false)), (String ((Ascii (true, true, true, true, false, true,
+          true, false)), (String ((Ascii (false, true, true, true, false,
+          true, true, false)), (String ((Ascii (true, false, true, false,
+          false, true, true, false)), EmptyString)))))))))
+   | None ->
+     s_ (String ((Ascii (false, true, true, true, false, true, true, false)),
+       (String ((Ascii (true, true, true, true, false, true, true, false)),
+       (String ((Ascii (false, true, true, true, false, true, true, false)),
+       (String ((Ascii (true, false, true, false, false, true, true, false)),
+       EmptyString)))))))))) :: (((s_ (String ((Ascii (true, true, true,
+                                    false, false, true, true, false)),
+                                    (String ((Ascii (false, true, false,
+                                    false, true, true, true, false)), (String
+                                    ((Ascii (true, false, false, false,
+                                    false, true, true, false)), (String
+                                    ((Ascii (true, false, true, true, false,
+                                    true, true, false)), (String ((Ascii
+                                    (true, true, true, true, true, false,
+                                    true, false)), (String ((Ascii (true,
+                                    false, false, true, false, true, true,
+                                    false)), (String ((Ascii (false, true,
+                                    true, true, false, true, true, false)),
+                                    EmptyString))))))))))))))),
+  (b2s ((&&) (module_shape input) (gram PExpr input)))) :: (((s_ (String
+                                                               ((Ascii (true,
+                                                               true, true,
+                                                               true, false,
+                                                               true, true,
+                                                               false)),
+                                                               (String
+                                                               ((Ascii (true,
+                                                               true, false,
+                                                               false, false,
+                                                               false, true,
+                                                               false)),
+                                                               (String
+                                                               ((Ascii
+                                                               (false, false,
+                                                               false, false,
+                                                               true, true,
+                                                               false,
+                                                               false)),
+                                                               (String
+                                                               ((Ascii (true,
+                                                               true, true,
+                                                               false, true,
+                                                               true, false,
+                                                               false)),
+                                                               EmptyString))))))))),
   (b2s
     ((||) (jsx_free real) (match rdiags with
                            | [] -> false
@@ -980,7 +1089,7 @@ let extras c model_out =
               (true, false, true, false, true, true, true, false)), (String
               ((Ascii (false, false, true, false, true, true, true, false)),
               EmptyString)))))))))))) alt)
-     else true))) :: []))))))))))))))))
+     else true))) :: []))))))))))))))))))
 
 (** val regex_table : jv -> str -> bool **)
 
